@@ -374,4 +374,122 @@ def applyPairs : List TNode → List (Nat × Nat) → Option (List TNode)
   | t, [] => some t
   | t, (a, b) :: ps => (applyPair t a b).bind (fun t' => applyPairs t' ps)
 
+/-! ## (iv) a whole TEBD time step: global binding record
+
+`TEBD.run_one_time_step` loops over `self.exponents`; `_apply_one_trotter_step` dispatches on the
+number of named sites.  Every node carries one physical leg.  The state of the model is the tree
+(identifier, parent, ordered children of every node) plus, for every site, the *global* name of its
+current physical leg and the list of bindings made so far.  The bindings of one operator are read off
+the leg-level model (`twoSite` / `singleSite`), not postulated. -/
+
+/-- Global names of physical legs: the initial leg of a site, or output `k` of gate number `gate`. -/
+inductive GLeg where
+  | init (site : Nat)
+  | out (gate k : Nat)
+  deriving DecidableEq, Repr
+
+/-- One binding: (physical leg, gate number, input index of that gate). -/
+abbrev Rec := GLeg × Nat × Nat
+
+structure GState where
+  tree : List TNode
+  cur : Nat → GLeg
+  record : List Rec
+
+def setCur (cur : Nat → GLeg) (s : Nat) (v : GLeg) : Nat → GLeg :=
+  fun x => if x = s then v else cur x
+
+/-- The local bindings `(phys s 0, gin k)` of gate `g` in global names. -/
+def bindsToGlobal (cur : Nat → GLeg) (g : Nat) : List (Leg × Leg) → Option (List Rec)
+  | [] => some []
+  | (Leg.phys s 0, Leg.gin k) :: rest => (bindsToGlobal cur g rest).map ((cur s, g, k) :: ·)
+  | _ => none
+
+/-- The open legs of a node after a gate: exactly one gate output. -/
+def openOut (n : MNode) : Option Nat :=
+  match n.legs.drop n.nvirt with
+  | [Leg.gout k] => some k
+  | _ => none
+
+/-- `_apply_one_trotter_step_single_site` (the node objects are not touched). -/
+def stepSingle (st : GState) (g s : Nat) : Option GState :=
+  (findNode st.tree s).bind fun x =>
+  (singleSite (mkNode s x.parent x.children 1)).bind fun nb =>
+  (bindsToGlobal st.cur g nb.2).bind fun r =>
+  (openOut nb.1).bind fun o =>
+  some ⟨st.tree, setCur st.cur s (GLeg.out g o), st.record ++ r⟩
+
+/-- `_apply_one_trotter_step_two_site` -/
+def stepTwo (st : GState) (g a b : Nat) : Option GState :=
+  (findNode st.tree a).bind fun x =>
+  (findNode st.tree b).bind fun y =>
+  if a = b then none else
+  (twoSite a (mkNode a x.parent x.children 1) b (mkNode b y.parent y.children 1)).bind fun r =>
+  (bindsToGlobal st.cur g r.binds).bind fun rc =>
+  (openOut r.node1).bind fun o1 =>
+  (openOut r.node2).bind fun o2 =>
+  some ⟨updateNode (updateNode st.tree a r.node1) b r.node2,
+        setCur (setCur st.cur a (GLeg.out g o1)) b (GLeg.out g o2), st.record ++ rc⟩
+
+/-- `_apply_one_trotter_step`: dispatch on `len(unitary.node_identifiers)`. -/
+def applyOp (st : GState) (g : Nat) : List Nat → Option GState
+  | [] => some st
+  | [s] => stepSingle st g s
+  | [a, b] => stepTwo st g a b
+  | _ => none                                   -- NotImplementedError
+
+/-- `run_one_time_step`: `for unitary in self.exponents`; gates are numbered from `g`. -/
+def runOps : GState → Nat → List (List Nat) → Option GState
+  | st, _, [] => some st
+  | st, g, op :: ops => (applyOp st g op).bind fun st' => runOps st' (g + 1) ops
+
+/-- `k` time steps of the driver loop. -/
+def runSteps (ops : List (List Nat)) : GState → Nat → Nat → Option GState
+  | st, _, 0 => some st
+  | st, g, k + 1 => (runOps st g ops).bind fun st' => runSteps ops st' (g + ops.length) k
+
+/-! ### the specification: composition in list order -/
+
+/-- Operator number `g` on `sites`: input `k` binds the current physical leg of the `k`-th named site,
+    output `k` becomes that site's physical leg. -/
+def specOp (g : Nat) : (Nat → GLeg) × List Rec → Nat → List Nat → (Nat → GLeg) × List Rec
+  | cr, _, [] => cr
+  | cr, k, s :: ss => specOp g (setCur cr.1 s (GLeg.out g k), cr.2 ++ [(cr.1 s, g, k)]) (k + 1) ss
+
+def specRun : (Nat → GLeg) × List Rec → Nat → List (List Nat) → (Nat → GLeg) × List Rec
+  | cr, _, [] => cr
+  | cr, g, op :: ops => specRun (specOp g cr 0 op) (g + 1) ops
+
+/-! ### site identifiers of `TEBD.exponents` -/
+
+/-- How the swaps of a `TrotterStep` may be handed over (after the repair of F-C08a a plain list of pairs
+    is wrapped into a `SWAPlist`). -/
+inductive SwapArg where
+  | none
+  | swaplist (l : List (Nat × Nat))
+  | plain (l : List (Nat × Nat))
+
+/-- `TrotterStep.__init__`: `None -> SWAPlist()`, a `SWAPlist` as it is, else `SWAPlist(list)`. -/
+def SwapArg.norm : SwapArg → List (Nat × Nat)
+  | .none => []
+  | .swaplist l => l
+  | .plain l => l
+
+/-- `SWAPlist.into_operators`: `for swap_pair in self: … NumericOperator(swap_matrix, list(swap_pair))`;
+    only the identifiers are kept. -/
+def swapSites (l : List (Nat × Nat)) : List (List Nat) :=
+  l.foldl (fun acc pr => acc ++ [[pr.1, pr.2]]) []
+
+/-- A Trotter step: the keys of its `TensorProduct` in dictionary order, and its swaps. -/
+structure SiteStep where
+  keys : List Nat
+  before : SwapArg
+  after : SwapArg
+
+/-- Site identifiers of `TEBD.exponents`: `into_operator` / `exp` / `to_tensor` keep
+    `list(self.keys())`; the list order is that of `exponentiate_splitting`. -/
+def exponentSites (steps : List SiteStep) : List (List Nat) :=
+  exponentiateSplitting (steps.map fun s =>
+    (⟨swapSites s.before.norm, s.keys, swapSites s.after.norm⟩ : TStep (List Nat)))
+
 end Ptn.C08
